@@ -23,6 +23,7 @@ class Built:
     sector: int = 512
     note: dict = field(default_factory=dict)
     parent_base: int = 0  # byte offset added to guest offset for the parent's pattern
+    tok_bytes: object = None  # optional override: (tok, a, n) -> bytes for D tokens (e.g. compressed grains)
     cb: int = 1  # cells per allocation unit (for D tokens: c = position * cb + cell in unit)
     stride: int = 0  # bytes between consecutive unit positions (0 -> cb * cell)
 
@@ -90,6 +91,8 @@ def token_bytes(tok, a, b, built: Built):
     if k == "Z":
         return bytes(n)
     if k == "D":
+        if built.tok_bytes is not None:
+            return built.tok_bytes(tok, a, n)
         c = tok["c"]
         stride = built.stride or built.cb * built.cell
         return patterns.pat(tok["f"], built.bases[tok["f"]] + (c // built.cb) * stride + (c % built.cb) * built.cell + a, n)
@@ -211,3 +214,41 @@ def view_features(view):
     kinds = sorted({t["k"] for t in view})
     disc = nontrivial(view, 0, len(view))
     return {"kinds": "".join(kinds), "discontinuous": disc}
+
+
+class SectorAdapter(io.RawIOBase):
+    """Stream facade over an object that only offers read_sectors(sector, count) (e.g. vmdk.SparseDisk)."""
+
+    def __init__(self, obj, size, sector=512):
+        super().__init__()
+        self.obj = obj
+        self.size = size
+        self.sector = sector
+        self._pos = 0
+
+    def seek(self, pos, whence=0):
+        self._pos = pos if whence == 0 else self._pos + pos if whence == 1 else self.size + pos
+        return self._pos
+
+    def tell(self):
+        return self._pos
+
+    def read(self, n=-1):
+        if n is None or n < 0:
+            n = self.size - self._pos
+        n = max(0, min(n, self.size - self._pos))
+        if n == 0:
+            return b""
+        s0 = self._pos // self.sector
+        s1 = -(-(self._pos + n) // self.sector)
+        buf = self.obj.read_sectors(s0, s1 - s0)
+        a = self._pos - s0 * self.sector
+        self._pos += n
+        return buf[a : a + n]
+
+    def readoffset(self, o, n):
+        self.seek(o)
+        return self.read(n)
+
+    def read_sectors(self, sector, count):
+        return self.obj.read_sectors(sector, count)
